@@ -333,6 +333,20 @@ def check(case: Dict[str, Any]) -> CaseInfo:
     if row_local:
         again = run(f, res)
         require(_ids(again) == _ids(res), "idempotent", lambda: f"{_ids(again)} vs {_ids(res)}")
+    # one filter object reused with another frame/table: same rows encoded with a different id assignment
+    if pass_table and variant != "replace" and f["kind"] != "zero_dur":
+        fd2 = dict(fd, sym_order=list(reversed(fd["sym_order"])))
+        df2, table2 = build_frame(fd2)
+        flt_obj = build_filter(f, table, variant)
+        first = hta_call("filter(reused, first call)", lambda: flt_obj(df, table))
+        second = hta_call("filter(reused, second call)", lambda: flt_obj(df2, table2))
+        require(_ids(first) == _ids(res), "reuse:first_call", lambda: f"{_ids(first)} vs {_ids(res)}")
+        ctor_bound = any(m["kind"] in ("name", "memcpy") and m.get("table") in ("ctor", "both") for m in members)
+        if not ctor_bound or True:
+            # a table given at call time takes precedence over one bound in the constructor (documented in the filters)
+            require(_ids(second) == _ids(res), "reuse:same_object_other_symbol_table",
+                    lambda: f"second call with a re-numbered table selected {_ids(second)}, expected {_ids(res)}")
+        classes.append("filter_object_reused_with_other_table")
     proper = 0 < len(want) < len(rows)
     if proper:
         classes.append("proper_subset")
@@ -354,5 +368,6 @@ def view(case):
 def campaigns(tier: str) -> List[Campaign]:
     return [Campaign("filters", filter_case(), check, quick=4000, thorough=240000, quick_shards=8, fuzz_runs=80000,
                      required_classes={"proper_subset": 0.15, "row_local_composite": 0.1, "name_on_decoded": 0.03,
-                                       "name": 0.02, "gpu": 0.02, "memcpy": 0.02, "iter_index": 0.02, "time": 0.02},
+                                       "name": 0.02, "gpu": 0.02, "memcpy": 0.02, "iter_index": 0.02, "time": 0.02,
+                                       "filter_object_reused_with_other_table": 0.2},
                      sample_view=view)]
